@@ -29,14 +29,14 @@ static const char *const fault_names[] = { "ring_overflow_char_dropped", "irq_in
 enum { P_PATH_PROCESS, P_PATH_EVAL, P_PATH_PUTCHAR_IRQ, P_PATH_PUTCHAR_THR, P_FOUR_ARGS, P_MORE_THAN_FOUR,
        P_QUOTED, P_LINE_79, P_EVAL_LONGER_THAN_RING, P_EVAL_MULTI_LINE, P_YIELDING_CMD, P_SLEEPING_CMD,
        P_INPUT_WHILE_CMD_RUNS, P_REGISTER_REFUSED, P_UNKNOWN_LINE, P_EMPTY_LINE, P_ARGS_JUDGED,
-       P_LEADING_SPACE_LINE, P_FAILING_CMD, P_BUILTIN };
+       P_LEADING_SPACE_LINE, P_FAILING_CMD, P_BUILTIN, P_CMD_DIRTIED_SCRATCH };
 static const char *const probe_names[] = {
 	"path_console_process", "path_console_eval", "path_putchar_irq", "path_putchar_thread",
 	"line_with_exactly_four_arguments", "tokeniser_stopped_at_four_arguments", "quoted_argument",
 	"line_hit_79_characters", "eval_string_longer_than_ring", "eval_multi_line", "yielding_command_ran",
 	"sleeping_command_ran", "input_arrived_while_command_running", "registration_refused_table_full",
 	"unknown_command_line", "empty_line", "arguments_judged", "line_with_leading_space_or_quote",
-	"failing_command_ran", "builtin_command_line", NULL };
+	"failing_command_ran", "builtin_command_line", "command_stored_state_in_scratch", NULL };
 
 /* ---- commands ---------------------------------------------------------------- */
 
@@ -90,6 +90,13 @@ static pt_state_t cmd_fn(console_t *c)
 	nrec++;
 	sim_evs("cmd", t->cmd.name);
 	cmd_running = true;
+	/* console.h: the scratch area is the command's to store state in once it has parsed its
+	 * arguments.  Some commands do: the next line must still be computed from what was typed. */
+	if (sim_chance(1, 3)) {
+		uint32_t from = sim_choose(sizeof(c->scratch.buf)), n = 1 + sim_choose(sizeof(c->scratch.buf) - from);
+		memset(c->scratch.u8 + from, 0x41 + (nrec & 15), n);
+		sim_probe(P_CMD_DIRTIED_SCRATCH);
+	}
 	if (t->kind == K_YLD) {
 		sim_probe(P_YIELDING_CMD);
 		for (cmd_left = 1 + sim_choose(4); cmd_left > 0; cmd_left--)
